@@ -17,6 +17,7 @@ let chain = function
   | VErr (Some e) -> Printf.sprintf "%s/%d" (if int_of_n (err_root e) = 1 then "E" else "other") (depth e)
   | _ -> "nonerror"
 let show_val = function
+  | VBool b -> if b then "true" else "false"
   | VInt z -> string_of_int (int_of_z z)
   | VStr s -> hex s
   | _ -> "?"
@@ -36,7 +37,46 @@ let run_prog = function
 let () =
   try while true do
     let line = input_line stdin in
-    (match String.split_on_char ' ' line with
+    (try match String.split_on_char ' ' line with
+     | "opctx" :: failing :: toks ->
+       (* the wrapped call among operators: prefix-encoded tree; W<b|q|d<int>> = f1() with ! / ? / ?:<int>,
+          B<b|q|d<0|1>> = fb() likewise, i<int>, t, f, NEG, NOT, binary operator tokens *)
+       let e = if failing = "1" then VErr (Some (EBase (n_of_int 1))) else VErr None in
+       let f1call = ECallP (n_of_int 1, [VInt (z_of_int 5); e]) in
+       let fbcall = ECallP (n_of_int 1, [VBool true; e]) in
+       let pre = ref SSkip in
+       let isbool = ref false in
+       let rest = ref (List.filter (fun s -> s <> "") toks) in
+       let next () = match !rest with [] -> failwith "eof" | t :: r -> rest := r; t in
+       let leaf call zero t =
+         let k = String.sub t 1 (String.length t - 1) in
+         if k = "b" then lower_closure KBang call [zero]
+         else if k = "q" then begin
+           pre := quest_prelude call [zero] [VInt Z0] (nat_of_int 1);
+           (match quest_value [zero] (nat_of_int 1) with [v] -> v | _ -> failwith "quest") end
+         else begin
+           let d = String.sub k 1 (String.length k - 1) in
+           let dv = (match zero with VBool _ -> VBool (d = "1") | _ -> VInt (z_of_int (int_of_string d))) in
+           lower_closure (KDefault (EConst dv)) call [zero] end in
+       let rec tree () =
+         let t = next () in
+         let bin op = let a = tree () in let b = tree () in EBin (op, a, b) in
+         (match t with
+          | "*" -> bin BMul | "/" -> bin BQuo | "%" -> bin BRem | "<<" -> bin BShl | ">>" -> bin BShr
+          | "&" -> bin BAnd | "&^" -> bin BAndNot | "+" -> bin BAdd | "-" -> bin BSub | "|" -> bin BOr | "^" -> bin BXor
+          | "==" -> bin BEq | "!=" -> bin BNe | "<" -> bin BLt | "<=" -> bin BLe | ">" -> bin BGt | ">=" -> bin BGe
+          | "&&" -> let a = tree () in let b = tree () in EAnd (a, b)
+          | "||" -> let a = tree () in let b = tree () in EOr (a, b)
+          | "NEG" -> let a = tree () in EBin (BSub, EConst (VInt Z0), a)
+          | "NOT" -> let a = tree () in ENot a
+          | "t" -> EConst (VBool true) | "f" -> EConst (VBool false)
+          | _ when t.[0] = 'i' -> EConst (VInt (z_of_int (int_of_string (String.sub t 1 (String.length t - 1)))))
+          | _ when t.[0] = 'W' -> leaf f1call (VInt Z0) t
+          | _ when t.[0] = 'B' -> leaf fbcall (VBool false) t
+          | _ -> failwith ("bad token " ^ t)) in
+       (match next () with "bool" -> isbool := true | _ -> ());
+       let tr = tree () in
+       run_prog (Some (opctx_prog !pre tr (n_of_int (if !isbool then 101 else 100))))
      | "shape" :: kind :: pos :: failing :: callee :: args ->
        (* a wrapped call with arguments: "shape <bang|quest|default> <stmt|define> <0|1> <va|vi|two|m|e|f1|f0> arg*"
           arg: i<int> | s<hex> | N! | N?: (nested f1()! / f1()?:42) | P<id>,<int> (probe) ; spreads arrive flattened *)
@@ -80,6 +120,7 @@ let () =
            | ((RPanic v, _), tr) -> Printf.printf "panic=%s\ttrace=%s" (chain v) (show_trace tr)
            | ((RStuck, _), _) -> print_string "STUCK"
            | _ -> print_string "OTHER"))
-     | _ -> print_string "?");
+     | _ -> print_string "?"
+     with Failure m -> print_string ("BADCASE " ^ m) | Not_found -> print_string "BADCASE" | Invalid_argument m -> print_string ("BADCASE " ^ m));
     print_newline ()
   done with End_of_file -> ()
